@@ -1,6 +1,8 @@
 package main
 
 import (
+	"fmt"
+	"go/types"
 	"strings"
 
 	"golang.org/x/tools/go/ssa"
@@ -14,6 +16,37 @@ func init() {
 func checkC30(r *Run) {
 	r.Explain = "C30 (guards-and-conversions clause only): FromString succeeds only after: the decimal parsed, sign not negative, exponent >= -6, no fractional part after shifting by 6, value not greater than maxDecimal; maxDecimal is initialised by exact decimal parsing of the literal 9223372036854775807 (= MaxInt64); the returned droplets are uint64(IntPart) of the shifted value; ToString refuses n > MaxInt64 before the int64 conversion and formats with exponent -6 / 6 fixed places; the narrowing conversions are discharged by those guards."
 	r.NotDec = "exactness of the decimal library's parsing, shifting and formatting (the round trip itself is a value property)"
+	// R3: no binary floating point anywhere amounts are parsed, formatted or carried
+	amountPkgs := []string{"util/droplet.", "util/http.", "util/fee.", "api.", "cli.", "readable.", "wallet.", "wallet/", "transaction.", "coin.", "visor.", "params."}
+	nf, uses := floatUses(r.P, amountPkgs...)
+	r.Units["functions scanned for floating point"] = nf
+	for _, u := range uses {
+		r.Check("C30-R3", "no floating-point value in "+FnName(u.Parent()), r.P.Pos(u.Pos()), false, u.String()+": binary floating point cannot represent droplet amounts exactly")
+	}
+	if nf < 1200 {
+		r.Fail("C30-R3", "functions scanned for floating point", "", fmt.Sprintf("anchor-unresolved: %d functions, hand-confirmed minimum is 1200", nf))
+	}
+	r.Pass("C30-R3", "the amount-handling packages use no floating point", "", fmt.Sprintf("%d functions scanned", nf))
+	_, ctl := floatUses(r.P, "daemon/pex.Peer.CanTry")
+	r.Check("C30-R3", "positive control: the scanner sees the floating-point back-off computation of pex.Peer.CanTry", "", len(ctl) > 0, "")
+	// R4: the JSON wrapper hands exactly the decoded JSON string to FromString and stores its result
+	const uj = "util/http.Coins.UnmarshalJSON"
+	r.RequireOnSuccess("C30-R4", uj, req("the body is a JSON string", "ok(json.Unmarshal($1, local:string))"), req("parsed by droplet.FromString", "ok(util/droplet.FromString(local:string))"))
+	r.RequireStore("C30-R4", uj, "the wrapper takes FromString's value", "$0 := util/droplet.FromString(local:string)#0")
+	if fn := r.fn("C30-R4", uj); fn != nil {
+		nSt := 0
+		for _, b := range fn.Blocks {
+			for _, in := range b.Instrs {
+				if st, ok := in.(*ssa.Store); ok {
+					if al, isAl := st.Addr.(*ssa.Alloc); isAl && isStringPtr(al.Type()) {
+						nSt++
+					}
+				}
+			}
+		}
+		r.Check("C30-R4", uj+": the string handed to FromString is written only by the JSON decoder", r.P.Pos(fn.Pos()), nSt == 0, fmt.Sprintf("%d direct assignment(s) to the string", nSt))
+	}
+	r.RequireOnSuccess("C30-R4", "util/http.Coins.MarshalJSON", req("formatted by droplet.ToString", "ok(util/droplet.ToString($0))"))
 	d := "decimal.NewFromString($0)#0"
 	e := "decimal.Decimal.Shift(" + d + ", 6)"
 	reqs := []Req{
@@ -185,4 +218,13 @@ func checkC31(r *Run) {
 		req("the coin-seconds sum did not overflow", "ok("+sum+")"))
 	r.RequireReturnAllPaths("C31-R2", "coin.UxOut.CoinHours", 0, "util/mathutil.AddUint64*($0.Body.Hours, *)#0", 1,
 		req("elapsed time is non-negative", "$0.Head.Time <= $1"))
+}
+
+func isStringPtr(t types.Type) bool {
+	p, ok := t.Underlying().(*types.Pointer)
+	if !ok {
+		return false
+	}
+	b, ok := p.Elem().Underlying().(*types.Basic)
+	return ok && b.Kind() == types.String
 }
